@@ -14,6 +14,7 @@ from vf.vloop import run_virtual, HangDetected
 
 ID = "C11"
 LEVEL = "fault_enumeration"
+LOGLEVELS = ["default", "debug"]   # every case also runs with the root logger at DEBUG (as --verbose does)
 SHARDS = {"quick": 4, "thorough": 16}
 BUDGET_S = {"quick": 100.0, "thorough": 900.0}
 TECHNIQUE = ("runtime monitoring with fault injection: scripted httpx transport (status/content-type/body/exception "
@@ -237,6 +238,12 @@ def gen_cases(ctx):
            {"req": "request", "id": 2, "beh": {"status": 200, "ctype": "json", "body": "response", "session": "NEW"}},
            {"req": "request", "id": 3, "beh": {"status": 500, "ctype": "other", "body": "nonjson"}},
            {"req": "request", "id": 4, "beh": ok}]
+    # bursts: several requests with distinct ids queued at once (only behaviours whose expectation is id-addressed)
+    simple = [b for b in singles if b.get("body") in ("response", "error", "empty", "nonjson", "truncated") or b.get("exc")]
+    for _ in range(40 if ctx.tier == "quick" else 600):
+        L = rng.randint(2, 4)
+        yield [dict({"req": "request", "id": f"burst-{i}", "beh": rng.choice(simple)}, **({"burst": True} if i == 0 else {}))
+               for i in range(L)]
     # pairs / seeded sequences
     if ctx.tier == "thorough":
         for a, b in itertools.product(singles[::3], singles[::5]):
@@ -358,16 +365,28 @@ def exec_case(ctx, seq: List[Dict[str, Any]]) -> None:
                     except Exception:
                         pass
                 dt = asyncio.create_task(drain())
+                burst = bool(seq and seq[0].get("burst"))
+                msgs = []
                 for k, step in enumerate(seq):
                     if step["req"] == "request":
                         msg = create_request("tools/call", {"name": "t", "arguments": {"x": TEXT, "n": None}}, id=step["id"])
                     else:
                         msg = create_notification("notifications/roots/list_changed", {})
                     wires.append(msg.model_dump(exclude_none=True))
-                    before = len(got)
-                    await write.send(msg)
-                    await asyncio.sleep(0.5)
-                    per_step.append(list(got[before:]))
+                    msgs.append(msg)
+                if burst:
+                    # everything is queued before the sender task gets a turn; the answers are attributed by id
+                    for msg in msgs:
+                        write.send_nowait(msg)
+                    await asyncio.sleep(0.5 * (len(msgs) + 1))
+                    for k, step in enumerate(seq):
+                        per_step.append(list(got))
+                else:
+                    for msg in msgs:
+                        before = len(got)
+                        await write.send(msg)
+                        await asyncio.sleep(0.5)
+                        per_step.append(list(got[before:]))
                 dt.cancel()
             return per_step, wires, list(http.requests)
 
@@ -408,6 +427,8 @@ def exec_case(ctx, seq: List[Dict[str, Any]]) -> None:
         if not beh.get("exc") and beh.get("status", 200) < 400 and beh.get("session") and not beh.get("redirect"):
             latest_session = beh["session"]
         got_n = [norm_any(m) for m in got]
+        if seq[0].get("burst"):
+            got_n = [g for g in got_n if g[1] == tagged(wires[k].get("id"))]
         with_id = [g for g in got_n if g[1] != ("null",)]
         if step["req"] == "notification":
             ref = reference(step, req_wire)
